@@ -18,8 +18,10 @@ func reset() {
 }
 
 type pairArg struct {
-	A string `json:"a"`
-	B string `json:"b"`
+	A      string `json:"a"`
+	B      string `json:"b"`
+	BuildA string `json:"build_a,omitempty"` // build metadata used by the string helpers
+	BuildB string `json:"build_b,omitempty"`
 }
 
 func probePre(p pairArg) (string, string) {
@@ -77,7 +79,10 @@ func probeHelpers(p pairArg) (string, string) {
 		return "", ""
 	}
 	want := oracle.ComparePre(p.A, p.B)
-	a, b := text(false, "1.0.0", p.A, ""), text(false, "1.0.0", p.B, "x.1")
+	a, b := text(false, "1.0.0", p.A, p.BuildA), text(false, "1.0.0", p.B, "x.1")
+	if p.BuildB != "" {
+		b = text(false, "1.0.0", p.B, p.BuildB)
+	}
 	ta, tb := "v"+a, "v"+b
 	type res struct {
 		name string
@@ -183,7 +188,7 @@ func main() {
 			r.Parallel(int64(len(U)), 1, func(w *mc.W, i int64) {
 				for j := range U {
 					cnt(w, U[i], U[j])
-					pPre.Do(w, pairArg{U[i], U[j]})
+					pPre.Do(w, pairArg{A: U[i], B: U[j]})
 				}
 				w.Outcome("row")
 			})
@@ -193,7 +198,7 @@ func main() {
 				}
 			})
 		})
-		r.Sample("pair", pairArg{"beta.2", "beta.11"})
+		r.Sample("pair", pairArg{A: "beta.2", B: "beta.11"})
 		pHi := mc.NewProbe(r, "history2", nil, probeHist)
 		r.Phase("serial: all histories of two comparisons over 14 pre-releases (the second comparison is judged against section 11)", "complete for depth 2 over the listed pre-releases", func() {
 			hs := []string{"", "1", "2", "3", "2.1", "1.3", "alpha", "beta", "rc", "beta.alpha", "alpha.rc", "a.b.c", "a.b", "b.c"}
@@ -203,7 +208,7 @@ func main() {
 						for _, c := range hs {
 							for _, d := range hs {
 								w.Point()
-								pHi.Do(w, histArg{pairArg{a, b}, pairArg{c, d}})
+								pHi.Do(w, histArg{pairArg{A: a, B: b}, pairArg{A: c, B: d}})
 							}
 						}
 					}
@@ -215,7 +220,7 @@ func main() {
 			r.Parallel(int64(len(U3)), 1, func(w *mc.W, i int64) {
 				for j := range U3 {
 					cnt(w, U3[i], U3[j])
-					pHelp.Do(w, pairArg{U3[i], U3[j]})
+					pHelp.Do(w, pairArg{A: U3[i], B: U3[j]})
 				}
 			})
 		})
@@ -246,11 +251,11 @@ func main() {
 			r.Parallel(int64(len(lists)), 1, func(w *mc.W, i int64) {
 				for j := range lists {
 					cnt(w, lists[i], lists[j])
-					pPre.Do(w, pairArg{lists[i], lists[j]})
+					pPre.Do(w, pairArg{A: lists[i], B: lists[j]})
 				}
 			})
 		})
-		r.Sample("pair", pairArg{"1.18446744073709551616", "1.1000000000000000000000000"})
+		r.Sample("pair", pairArg{A: "1.18446744073709551616", B: "1.1000000000000000000000000"})
 		var l4 []string
 		small := []string{"0", "1", "10", "a", "-"}
 		var g4 func(cur string, n int)
@@ -274,7 +279,7 @@ func main() {
 			r.Parallel(int64(len(l4)), 1, func(w *mc.W, i int64) {
 				for j := range l4 {
 					cnt(w, l4[i], l4[j])
-					pPre.Do(w, pairArg{l4[i], l4[j]})
+					pPre.Do(w, pairArg{A: l4[i], B: l4[j]})
 				}
 			})
 		})
@@ -295,8 +300,75 @@ func main() {
 			r.Parallel(int64(len(long)), 1, func(w *mc.W, i int64) {
 				for j := range long {
 					cnt(w, long[i], long[j])
-					pPre.Do(w, pairArg{long[i], long[j]})
-					pHelp.Do(w, pairArg{long[i], long[j]})
+					pPre.Do(w, pairArg{A: long[i], B: long[j]})
+					pHelp.Do(w, pairArg{A: long[i], B: long[j]})
+				}
+			})
+		})
+		// long alphanumeric identifiers (8..17 bytes): every pair of strings over {a,b} of length 8 and 9, and identifiers that differ in two places
+		var longIDs []string
+		var gl func(cur string, n int)
+		gl = func(cur string, n int) {
+			if len(cur) == n {
+				longIDs = append(longIDs, cur)
+				return
+			}
+			gl(cur+"a", n)
+			gl(cur+"b", n)
+		}
+		gl("", 8)
+		gl("", 9)
+		for _, x := range []string{"abcdefgh", "bacdefgh", "x1-fixes", "y0-fixes", "abcdefghijklmnop", "abcdefghijklmnpo", "abcdefghijklmnopq", "bbcdefghijklmnopa", "release-candidate", "release-candidatf", "0123456789abcdefg", "0123456789abcdeg0", "Abcdefgh", "aBcdefgh", "ABCDEFGH"} {
+			longIDs = append(longIDs, x)
+		}
+		r.Phase(fmt.Sprintf("all ordered pairs of %d long alphanumeric identifiers (all strings over {a,b} of length 8 and 9, two-difference pairs up to 17 bytes)", len(longIDs)), "complete", func() {
+			r.Parallel(int64(len(longIDs)), 1, func(w *mc.W, i int64) {
+				for j := range longIDs {
+					cnt(w, longIDs[i], longIDs[j])
+					pPre.Do(w, pairArg{A: longIDs[i], B: longIDs[j]})
+				}
+			})
+		})
+		// the string helpers with hyphenated / dotted / numeric build metadata, and pairs that differ only in letter case
+		r.Phase("string helpers: pre-releases of length <= 3 (incl. empty) x build metadata {exp.sha-5114f85, -, 0-0, a-b.c-d} on either side; every pre-release against its upper-, lower- and swapped-case variants", "complete", func() {
+			builds := []string{"exp.sha-5114f85", "-", "0-0", "a-b.c-d", "001"}
+			r.Parallel(int64(len(U3)), 1, func(w *mc.W, i int64) {
+				for j := range U3 {
+					if (int(i)+j)%5 != 0 && U3[i] != "" && U3[j] != "" {
+						continue
+					}
+					for _, bd := range builds {
+						w.Point()
+						pHelp.Do(w, pairArg{A: U3[i], B: U3[j], BuildA: bd})
+						pHelp.Do(w, pairArg{A: U3[i], B: U3[j], BuildB: bd})
+					}
+				}
+			})
+			swap := func(s string, mode int) string {
+				b := []byte(s)
+				for k, c := range b {
+					up := c >= 'A' && c <= 'Z'
+					lo := c >= 'a' && c <= 'z'
+					switch {
+					case lo && (mode == 0 || mode == 2):
+						b[k] = c - 32
+					case up && (mode == 1 || mode == 2):
+						b[k] = c + 32
+					}
+				}
+				return string(b)
+			}
+			r.Parallel(int64(len(U)), 64, func(w *mc.W, i int64) {
+				for mode := 0; mode < 3; mode++ {
+					v := swap(U[i], mode)
+					if v == U[i] {
+						continue
+					}
+					w.Point()
+					w.NonTrivial()
+					pHelp.Do(w, pairArg{A: U[i], B: v, BuildA: "x.1"}) // the same build metadata on both sides: texts of equal length
+					pHelp.Do(w, pairArg{A: v, B: U[i], BuildA: "x.1"})
+					pPre.Do(w, pairArg{A: U[i], B: v})
 				}
 			})
 		})
@@ -326,7 +398,7 @@ func main() {
 						for _, y := range chain {
 							w.Point()
 							pCore.Do(w, coreArg{c, c, x, y, "", "build"})
-							pHelp.Do(w, pairArg{x, y})
+							pHelp.Do(w, pairArg{A: x, B: y})
 						}
 					}
 				}
